@@ -456,25 +456,6 @@ Init == /\ \E pi \in 1..Len(Progs), pl \in 1..Len(Plans) : S = InitS(pi, pl)
         /\ ready = <<"task">> /\ budget = K
 
 Flush(s) == [s EXCEPT !.sched = <<>>]
-Commit(s) == S' = Flush(s) /\ ready' = ready \o s.sched /\ budget' = budget - 1
-
-EnvKill(text) == "kill" \in Alphabet /\ budget > 0 /\ Commit(CallKill(S, text, "env"))
-EnvPause(text) == "pause" \in Alphabet /\ budget > 0 /\ Commit(CallPause(S, text, "env"))
-EnvPlay == "play" \in Alphabet /\ budget > 0 /\ Commit(CallPlay(S, "env"))
-EnvResume(v) == "resume" \in Alphabet /\ budget > 0 /\ Commit(CallResume(S, v, "env"))
-EnvFail ==
-  /\ "fail" \in Alphabet /\ budget > 0
-  /\ LET r == Fail(S, "F") IN Commit(Note(r.s, <<"call", "fail", "F", r.ret, r.exc, "env">>))
-EnvCancel ==                               \* process.future().cancel()
-  /\ "cancel" \in Alphabet /\ budget > 0 /\ S.fut.st = "pending"
-  /\ S' = Note([S EXCEPT !.fut = [st |-> "cancelled", val |-> None],
-                         !.mon.killAcc = @ \/ (S.st \in Live),
-                         !.mon.killTexts = @ \cup {"Killed by future being cancelled"},
-                         !.mon.cancelled = TRUE], <<"cancel">>)
-  /\ ready' = Append(ready, "trykill") /\ budget' = budget - 1
-EnvCallSoon(kind) ==                       \* process.call_soon(callback); kind: "ok" | "raise"
-  /\ ("cb" \o kind) \in Alphabet /\ budget > 0
-  /\ S' = Note(S, <<"callsoon", kind>>) /\ ready' = Append(ready, "cb" \o kind) /\ budget' = budget - 1
 
 \* one event-loop callback
 Handle(s, h) ==
@@ -484,10 +465,34 @@ Handle(s, h) ==
                         IN IF c.exc # NoExc THEN Note(c.s, <<"cbtaskfailed", c.exc>>) ELSE c.s
     [] h = "trykill" -> Kill(s, "Killed by future being cancelled").s      \* try_killing on the cancelled future
 
-RunHandle ==
-  /\ ready # <<>>
-  /\ LET s1 == Handle(S, Head(ready)) IN S' = Flush(s1) /\ ready' = Tail(ready) \o s1.sched
-  /\ UNCHANGED budget
+\* The steps as pure functions (process state, ready queue) -> [s, rdy]; the actions below, the trace
+\* specification and the twin construction of ProcessFaults all apply these.
+Out2(s1, rdy) == [s |-> Flush(s1), rdy |-> rdy \o s1.sched]
+StepKill(s, rdy, text)  == Out2(CallKill(s, text, "env"), rdy)
+StepPause(s, rdy, text) == Out2(CallPause(s, text, "env"), rdy)
+StepPlay(s, rdy)        == Out2(CallPlay(s, "env"), rdy)
+StepResume(s, rdy, v)   == Out2(CallResume(s, v, "env"), rdy)
+StepFail(s, rdy)        == LET r == Fail(s, "F") IN Out2(Note(r.s, <<"call", "fail", "F", r.ret, r.exc, "env">>), rdy)
+StepCancel(s, rdy)      ==                   \* process.future().cancel()
+  [s |-> Note([s EXCEPT !.fut = [st |-> "cancelled", val |-> None],
+                        !.mon.killAcc = @ \/ (s.st \in Live),
+                        !.mon.killTexts = @ \cup {"Killed by future being cancelled"},
+                        !.mon.cancelled = TRUE], <<"cancel">>),
+   rdy |-> Append(rdy, "trykill")]
+StepCallSoon(s, rdy, kind) == [s |-> Note(s, <<"callsoon", kind>>), rdy |-> Append(rdy, "cb" \o kind)]
+StepRun(s, rdy)         == LET s1 == Handle(s, Head(rdy)) IN [s |-> Flush(s1), rdy |-> Tail(rdy) \o s1.sched]
+
+Env(r)  == S' = r.s /\ ready' = r.rdy /\ budget' = budget - 1
+Offered(kind) == kind \in Alphabet /\ budget > 0
+
+EnvKill(text)     == Offered("kill") /\ Env(StepKill(S, ready, text))
+EnvPause(text)    == Offered("pause") /\ Env(StepPause(S, ready, text))
+EnvPlay           == Offered("play") /\ Env(StepPlay(S, ready))
+EnvResume(v)      == Offered("resume") /\ Env(StepResume(S, ready, v))
+EnvFail           == Offered("fail") /\ Env(StepFail(S, ready))
+EnvCancel         == Offered("cancel") /\ S.fut.st = "pending" /\ Env(StepCancel(S, ready))
+EnvCallSoon(kind) == Offered("cb" \o kind) /\ Env(StepCallSoon(S, ready, kind))     \* kind: "ok" | "raise"
+RunHandle         == ready # <<>> /\ LET r == StepRun(S, ready) IN S' = r.s /\ ready' = r.rdy /\ UNCHANGED budget
 
 KillTexts   == {"k1"}
 PauseTexts  == {"p1"}
